@@ -110,7 +110,8 @@ def c_at_one(ctx, it, cfg):
 
 
 @REG.contract('factors/array-calls', [SF + ':ShapeDescriptionBase.%s' % f for f in ('eqRadiusFactor', 'kineticFactor', 'thermoFactor', 'normalRadii', '_processAspectRatio')],
-              configs=[dict(name='%s,%s' % (s, t), cls=s, dtype=t) for s in ('SphereDescription', 'NeedleDescription', 'PlateDescription') for t in ('real', 'int')])
+              configs=[dict(name='%s,%s' % (s, t), cls=s, dtype=t) for s in ('SphereDescription', 'NeedleDescription', 'PlateDescription', 'CuboidalDescription') for t in ('real', 'int')
+                       if not (s == 'CuboidalDescription' and t == 'int')])
 def c_array(ctx, it, cfg):
     """array and scalar calls agree entry by entry; the caller's array is not modified; integer-typed aspect ratios are not truncated"""
     d = it.get(SF, cfg['cls'])()
@@ -125,6 +126,21 @@ def c_array(ctx, it, cfg):
         ctx.prove('%s/one-value-per-entry' % f, and_(isinstance(ra, ArrBase) and ra.ndim == 1, eq(ra.shape[0], n)) if isinstance(ra, ArrBase) else False)
         if isinstance(ra, ArrBase):
             ctx.prove('%s/entry-equals-the-scalar-call' % f, eq(ra.get(i), rs), inst=[i])
+    # semi-axes: row i of the array call is the scalar call for entry i -- for EVERY array length (a (3, n) intermediate must not be confused with (n, 3) when n = 3)
+    ra = d.normalRadii(arr)
+    rs = d.normalRadii(arr.get(i))
+    ok = isinstance(ra, ArrBase) and ra.ndim == 2
+    ctx.prove('normalRadii/one-row-of-three-semi-axes-per-entry', and_(eq(ra.shape[0], n), eq(ra.shape[1], 3)) if ok else False)
+    if ok:
+        ctx.prove('normalRadii/row-equals-the-scalar-call', and_(*[eq(ra.get(i, k), rs.get(k) if rs.ndim == 1 else rs.get(0, k)) for k in range(3)]), inst=[i])
+    # a second array with the same length and the same first and last entries: every entry is still the function of ITS aspect ratio (no stale results)
+    arr2 = array(ctx, 'ar_second', (n,), dtype=cfg['dtype'])
+    ctx.assume(and_(eq(arr2.get(0), arr.get(0)), eq(arr2.get(n - 1), arr.get(n - 1))))
+    for f in ('eqRadiusFactor', 'kineticFactor', 'thermoFactor'):
+        rb = getattr(d, f)(arr2)
+        rs2 = getattr(d, f)(arr2.get(i))
+        if isinstance(rb, ArrBase):
+            ctx.prove('%s/second-array: entry-equals-the-scalar-call' % f, eq(rb.get(i), rs2), inst=[i])
     unchanged(ctx, 'arg:aspect-ratio-array', s, arr)
 
 
